@@ -62,7 +62,7 @@ func c09Gate(c *Ctx, ctorName, producer, accessor string) {
 		}
 	}
 	if idParam == nil {
-		broken("%s has no id parameter", ctorName)
+		unfollowed("%s has no id parameter", ctorName)
 	}
 	// … or read back from the field of the object under construction that holds
 	// it: a field whose only store in the whole module is `x.f = id` in the
@@ -329,6 +329,15 @@ func c09R4(c *Ctx) {
 	P := c.P
 	fn := P.Func("servitor/pub", "NewPostFromObject")
 	fname := FuncName(fn)
+	// the authors that were checked are the authors that are shown: nobody but the
+	// constructor (before its check) writes Post.creators
+	for _, st := range storesToField(P, P.Field("servitor/pub", "Post", "creators")) {
+		root := st.Parent()
+		for root.Parent() != nil {
+			root = root.Parent()
+		}
+		c.check(root == fn, FuncName(st.Parent())+"/creators-writer", P.InstrPos(st), FuncName(st.Parent()), "Post.creators is filled by the constructor that checks it", "Post.creators is written outside NewPostFromObject: authors are added after the same-host check has run")
+	}
 	var idParam *ssa.Parameter
 	for _, p := range fn.Params {
 		if isNamed(p.Type(), "net/url", "URL") {
